@@ -240,14 +240,13 @@ func decodeKeyByBitmapUint8(d *structDecoder, buf []byte, cursor int64) (int64, 
 			}
 			keyIdx := 0
 			bitmap := d.keyBitmapUint8
-			start := cursor
 			for {
 				c := char(b, cursor)
 				switch c {
 				case '"':
 					fieldSetIndex := bits.TrailingZeros8(curBit)
 					field := d.sortedFieldSets[fieldSetIndex]
-					keyLen := cursor - start
+					keyLen := int64(keyIdx) // decoded length: an escape is several bytes of input
 					cursor++
 					if keyLen < field.keyLen {
 						// early match
@@ -306,14 +305,13 @@ func decodeKeyByBitmapUint16(d *structDecoder, buf []byte, cursor int64) (int64,
 			}
 			keyIdx := 0
 			bitmap := d.keyBitmapUint16
-			start := cursor
 			for {
 				c := char(b, cursor)
 				switch c {
 				case '"':
 					fieldSetIndex := bits.TrailingZeros16(curBit)
 					field := d.sortedFieldSets[fieldSetIndex]
-					keyLen := cursor - start
+					keyLen := int64(keyIdx) // decoded length: an escape is several bytes of input
 					cursor++
 					if keyLen < field.keyLen {
 						// early match
@@ -424,7 +422,7 @@ func decodeKeyByBitmapUint8Stream(d *structDecoder, s *Stream) (*structFieldSet,
 				case '"':
 					fieldSetIndex := bits.TrailingZeros8(curBit)
 					field := d.sortedFieldSets[fieldSetIndex]
-					keyLen := cursor - start
+					keyLen := int64(keyIdx) // decoded length: an escape is several bytes of input
 					cursor++
 					s.cursor = cursor
 					if keyLen < field.keyLen {
@@ -511,7 +509,7 @@ func decodeKeyByBitmapUint16Stream(d *structDecoder, s *Stream) (*structFieldSet
 				case '"':
 					fieldSetIndex := bits.TrailingZeros16(curBit)
 					field := d.sortedFieldSets[fieldSetIndex]
-					keyLen := cursor - start
+					keyLen := int64(keyIdx) // decoded length: an escape is several bytes of input
 					cursor++
 					s.cursor = cursor
 					if keyLen < field.keyLen {
